@@ -9,7 +9,8 @@ THEOREMS = ['C02_driver_sound', 'C02_certified_table_sound', 'C02_lr0_suffix', '
             'C02_shift_preferred', 'C02_reduce_only_without_shift', 'C02_rr_resolution', 'C02_conflict_iff',
             'C02_la_closure', 'C02_model_table_wf', 'C02_model_table_sound', 'C02_la_complete_child', 'C02_la_complete_reduce', 'C02_complete', 'C02_automaton_complete',
             'C02_lr1_subset_la', 'C02_lr1_exec_subset_la',
-            'C02_read_witness', 'C02_follow_witness', 'C02_la_subset_lr1', 'C02_la_is_lalr1', 'C02_example']
+            'C02_read_witness', 'C02_follow_witness', 'C02_la_subset_lr1', 'C02_la_is_lalr1',
+            'C02_digraph_coded_acyclic', 'C02_digraph_twice_acyclic', 'C02_digraph_twice_aliasing_refuted', 'C02_example']
 GEN_DEPS = []
 RULE = ('random CFGs (<=5 non-terminals, <=4 terminals, <=3 alternatives of length <=3; nullable alternatives, '
         'left/right recursion, shared LR(0) cores, rule priorities, shift/reduce and reduce/reduce conflicts, 1-2 start '
